@@ -30,7 +30,7 @@ theorem SealInv.tr {b b' : Book} (h : SealInv b) (t : Tr b b') : SealInv b' := b
   | misc c =>
     intro v hv; unfold allV at hv; rw [c.1, c.2.2.2.1] at hv; rw [c.2.2.2.2.2.1]; exact h v hv
   | drop v hv => intro x hx; exact h x (mem_allV_drop hx)
-  | insert v es ok hes hcomp =>
+  | insert v es ok hes hcomp hzero =>
     intro x hx
     simp only [allV, List.mem_append, List.mem_cons, List.mem_nil_iff, or_false] at hx
     rcases hx with (hx | rfl) | hx
@@ -48,7 +48,7 @@ theorem CanonInv.tr {b b' : Book} (h : CanonInv b) (t : Tr b b') : CanonInv b' :
   cases t with
   | misc c => intro v hv; unfold allV at hv; rw [c.1, c.2.2.2.1] at hv; exact h v hv
   | drop v hv => intro x hx; exact h x (mem_allV_drop hx)
-  | insert v es ok hes hcomp =>
+  | insert v es ok hes hcomp hzero =>
     intro x hx
     simp only [allV, List.mem_append, List.mem_cons, List.mem_nil_iff, or_false] at hx
     rcases hx with (hx | rfl) | hx
@@ -61,7 +61,7 @@ theorem VokInv.tr {b b' : Book} (h : VokInv b) (t : Tr b b') : VokInv b' := by
   cases t with
   | misc c => intro v hv; rw [c.1] at hv; exact h v hv
   | drop v hv => intro x hx; simp only [indexRemove_verts, deleteVertex_verts, List.mem_filter] at hx; exact h x hx.1
-  | insert v es ok hes hcomp =>
+  | insert v es ok hes hcomp hzero =>
     intro x hx
     simp only [List.mem_append, List.mem_cons, List.mem_nil_iff, or_false] at hx
     rcases hx with hx | rfl
